@@ -16,7 +16,6 @@ func historicalLookup(input OmegaInput) (output OmegaOutput) {
 
 	offset := uint64(32)
 	if !isReadable(h, offset, *input.VM.Memory) { // not readable, return panic
-		input.VM.Registers[7] = OOB
 		return OmegaOutput{
 			ExitReason: ExitPanic,
 			Addition:   input.Addition,
@@ -46,7 +45,6 @@ func historicalLookup(input OmegaInput) (output OmegaOutput) {
 	}
 
 	if !isWriteable(o, l, *input.VM.Memory) && l != 0 { // not writeable, return panic
-		input.VM.Registers[7] = OOB
 		return OmegaOutput{
 			ExitReason: ExitPanic,
 			Addition:   input.Addition,
@@ -80,7 +78,6 @@ func export(input OmegaInput) (output OmegaOutput) {
 	z := min(input.VM.Registers[8], types.SegmentSize)
 
 	if !isReadable(p, z, *input.VM.Memory) { // not readable, return
-		input.VM.Registers[7] = OOB
 		return OmegaOutput{
 			ExitReason: ExitPanic,
 			Addition:   input.Addition,
@@ -308,6 +305,12 @@ func pages(input OmegaInput) (output OmegaOutput) {
 	}
 
 	// u_a
+	if r == 0 { // inaccessible, contents zero: the pages are dropped from the map
+		for i := uint32(p); i < uint32(p+c); i++ {
+			delete(input.Addition.IntegratedPVMMap[n].Memory.Pages, i)
+		}
+	}
+
 	if r == 1 || r == 3 {
 		for i := uint32(p); i < uint32(p+c); i++ {
 			input.Addition.IntegratedPVMMap[n].Memory.Pages[i] = &Page{
